@@ -1,2 +1,44 @@
-From TV Require Import Base.
-Example C04_placeholder : True. Proof. exact I. Qed.
+(* C04 -- ticks are serialised, carry one time each, and time never runs backwards.
+   Message-level model of the master scheduler (Model/Master.v): [MRun m now outs] says that the
+   master, fed ANY sequence of start / Output / Skip / Interrupt / ComponentException / timer events
+   at non-decreasing real times -- in which the sleep timer does not fire before its deadline and no
+   component asks to be called back before the time of the tick it answers ([env_ok]) -- has
+   produced the outputs [outs].  Handlers are atomic between suspensions (asyncio).  The nested
+   scheduler's inner tick runs inside SystemComponent.on_tick, i.e. between the system's Input and
+   its Output: that containment is checked on whole nested simulations by the correspondence run
+   (oracle code 49).  Property theorems only. *)
+From TV Require Import Base Model.Wiring Model.Ticker Model.Master Proofs.MasterP.
+Open Scope Z_scope.
+
+(* no tick starts before the previous one has ended; every tick ends with its own time; every
+   Input / Skip is produced inside a tick and carries that tick's time -- for every event history *)
+Theorem C04_serial_one_time : forall conns comps initial num den,
+  0 < num -> 0 < den ->
+  forall m now outs, MRun conns comps initial num den m now outs ->
+  exists c, bracket None outs = Some c /\ (mp m = PStopped \/ c = cur_of m).
+Proof. intros conns comps initial num den Hn Hd. apply run_bracket; assumption. Qed.
+
+(* a tick ends only when every participant has answered: the ticker's todo list is empty *)
+Theorem C04_tick_ends_when_all_answered : forall conns comps st c t ch st' acts,
+  propagate conns comps st c t ch = POk st' acts true -> todo st' = [].
+Proof.
+  intros conns comps st c t ch st' acts H.
+  destruct (TickerP.propagate_ok conns comps st c t ch st' acts true H) as [_ [_ [_ Hf]]].
+  destruct (todo st'); [reflexivity | discriminate].
+Qed.
+
+(* provided no component asks to be called back in the past, successive tick times never
+   decrease -- including ticks caused by interrupts raised while a tick is running *)
+Theorem C04_monotone : forall conns comps initial num den,
+  0 < num -> 0 < den ->
+  forall m now outs, MRun conns comps initial num den m now outs -> nondecr (tick_times outs).
+Proof. intros conns comps initial num den Hn Hd. apply run_monotone; assumption. Qed.
+
+Example C04_nonvacuous :
+  let '(m1, o1) := step [] [3%positive] 0 1 1 (m_init 0) 5 IStart in
+  let '(m2, o2) := step [] [3%positive] 0 1 1 m1 6 (IInterrupt 3%positive) in
+  let '(m3, o3) := step [] [3%positive] 0 1 1 m2 9 (IOutput 3%positive 0 [] None) in
+  let '(m4, o4) := step [] [3%positive] 0 1 1 m3 10 ITimer in
+  o1 = [OTickStart 0 [3%positive]; OAct (Upd 3%positive 0 [])] /\ o2 = [] /\
+  o3 = [OTickEnd 0; OArm 10] /\ o4 = [OTickStart 1 [3%positive]; OAct (Upd 3%positive 1 [])].
+Proof. vm_compute. repeat split; reflexivity. Qed.
